@@ -64,8 +64,16 @@ theorem yieldDict_ok (tasks r : Tasks) (fn : Name) (d : TDict) (nf bf : Name)
     (get (del d .basename) .name ≠ none ∨ (bnOf d).truthy = true) ∧
     -- has `actions` unless it carries the group's attributes
     ((get d .actions).isSome = true ∨ get (del d .basename) .name = some .none) ∧
-    FieldsValid d (get (del d .basename) .name == some .none) := by
+    FieldsValid d (get (del d .basename) .name == some .none) ∧ basenameOk d = true := by
   unfold yieldDict at h
+  split at h
+  · simp at h
+  rename_i hbok
+  have hbok' : basenameOk d = true := by simpa using hbok
+  suffices hmain : (get (del d .basename) .name ≠ none ∨ (bnOf d).truthy = true) ∧
+      ((get d .actions).isSome = true ∨ get (del d .basename) .name = some .none) ∧
+      FieldsValid d (get (del d .basename) .name == some .none) from ⟨hmain.1, hmain.2.1, hmain.2.2, hbok'⟩
+  unfold yieldDictPinned at h
   split at h
   · rename_i nv hnv
     refine ⟨Or.inl (by simp [hnv]), ?_⟩
@@ -135,7 +143,7 @@ def ResultValid (fn : Name) : Result → Prop
   | .gen items => ∀ y ∈ Gen.flattenList items, y ≠ .other ∧ ∀ d nf bf, y = .dict d nf bf →
       (get (del d .basename) .name ≠ none ∨ (bnOf d).truthy = true) ∧
       ((get d .actions).isSome = true ∨ get (del d .basename) .name = some .none) ∧
-      FieldsValid d (get (del d .basename) .name == some .none)
+      FieldsValid d (get (del d .basename) .name == some .none) ∧ basenameOk d = true
   | .other => False
   | _ => True
 
@@ -165,8 +173,9 @@ theorem generate_ok (fn : Name) (r : Result) (ts : List Task) (h : generate fn r
     · rename_i hy; exact key _ hy
     · rename_i tasks hy; exact key _ hy
 
-theorem generateAll_ok_mem (cs : List Creator) (ts : List Task) (h : generateAll cs = .ok ts) :
-    ∀ c ∈ cs, ∃ r, generate c.name c.result = .ok r ∧ ∀ t ∈ r, t ∈ ts := by
+theorem generateAll_ok_mem (cmds : List Name) (cs : List Creator) (ts : List Task)
+    (h : generateAll cmds cs = .ok ts) :
+    ∀ c ∈ cs, ∃ r, generate c.name c.result = .ok r ∧ cmdClash cmds r = false ∧ ∀ t ∈ r, t ∈ ts := by
   induction cs generalizing ts with
   | nil => simp
   | cons c rest ih =>
@@ -176,16 +185,43 @@ theorem generateAll_ok_mem (cs : List Creator) (ts : List Task) (h : generateAll
     · rename_i r hg
       split at h
       · simp at h
-      · rename_i rest' hr
-        cases h
-        intro c' hc'
-        rcases List.mem_cons.mp hc' with rfl | hm
-        · exact ⟨r, hg, fun t ht => by simp [ht]⟩
-        · obtain ⟨r', hr', hsub⟩ := ih rest' hr c' hm
-          exact ⟨r', hr', fun t ht => by simp [hsub t ht]⟩
+      · rename_i hclash
+        split at h
+        · simp at h
+        · rename_i rest' hr
+          cases h
+          intro c' hc'
+          rcases List.mem_cons.mp hc' with rfl | hm
+          · exact ⟨r, hg, by simpa using hclash, fun t ht => by simp [ht]⟩
+          · obtain ⟨r', hr', hcl', hsub⟩ := ih rest' hr c' hm
+            exact ⟨r', hr', hcl', fun t ht => by simp [hsub t ht]⟩
+
+/-- no loaded task other than a sub-task is named like a command -/
+theorem generateAll_no_cmd (cmds : List Name) (cs : List Creator) (ts : List Task)
+    (h : generateAll cmds cs = .ok ts) : ∀ t ∈ ts, t.subtaskOf = none → t.name ∉ cmds := by
+  induction cs generalizing ts with
+  | nil => simp [generateAll] at h; subst h; simp
+  | cons c rest ih =>
+    unfold generateAll at h
+    split at h
+    · simp at h
+    · rename_i r hg
+      split at h
+      · simp at h
+      · rename_i hclash
+        split at h
+        · simp at h
+        · rename_i rest' hr
+          cases h
+          intro t ht hsub hin
+          rcases List.mem_append.mp ht with h1 | h1
+          · apply hclash
+            simp only [cmdClash, List.any_eq_true, Bool.and_eq_true]
+            exact ⟨t, h1, by simp [hsub], by simpa using hin⟩
+          · exact ih rest' hr t h1 hsub hin
 
 theorem loadTasks_ok (cmds : List Name) (cs : List Creator) (ts : List Task) (h : loadTasks cmds cs = .ok ts) :
-    (∀ c ∈ cs, c.name ∉ cmds) ∧ generateAll (sortByLine cs) = .ok ts := by
+    (∀ c ∈ cs, c.name ∉ cmds) ∧ generateAll cmds (sortByLine cs) = .ok ts := by
   unfold loadTasks at h
   split at h
   · simp at h
